@@ -120,6 +120,22 @@ REPRESENTATIVES.update({
     "map_declared_2_63": b"\xbb\x7f\xff\xff\xff\xff\xff\xff\xff",
     "bstr_declared_2_63": b"\x5b\x7f\xff\xff\xff\xff\xff\xff\xff",
     "tstr_declared_2_31": b"\x7a\x7f\xff\xff\xff",
+    # floating-point values a conversion to an integer trips over (infinities, NaN, minus zero, whole numbers far
+    # beyond 64 bits) in every width, bare and as the content of a byte string (unions decode contents by trial)
+    "float16_inf": b"\xf9\x7c\x00",
+    "float16_neg_inf": b"\xf9\xfc\x00",
+    "float16_nan": b"\xf9\x7e\x00",
+    "float16_neg_zero": b"\xf9\x80\x00",
+    "float16_one": b"\xf9\x3c\x00",
+    "float32_inf": b"\xfa\x7f\x80\x00\x00",
+    "float64_inf": b"\xfb\x7f\xf0\x00\x00\x00\x00\x00\x00",
+    "float64_1e300": b"\xfb\x7e\x37\xe4\x3c\x88\x00\x75\x9c",
+    "float64_two": b"\xfb\x40\x00\x00\x00\x00\x00\x00\x00",
+    "bstr_float16_inf": b"\x43\xf9\x7c\x00",
+    "bstr_float16_neg_inf": b"\x43\xf9\xfc\x00",
+    "bstr_float16_nan": b"\x43\xf9\x7e\x00",
+    "bstr_float64_1e300": b"\x49\xfb\x7e\x37\xe4\x3c\x88\x00\x75\x9c",
+    "arr_of_float_inf": b"\x82\xf9\x7c\x00\xf9\xfc\x00",
 })
 REP_NAMES = sorted(REPRESENTATIVES)
 
